@@ -1472,7 +1472,16 @@ get_getter(CPPType *expr_type, string expression,
   }
 
   // We can't return an array from a function, but we can decay it into a
-  // pointer.
+  // pointer.  The array type may be hidden behind a typedef.
+  {
+    CPPType *unwrapped = expr_type;
+    while (unwrapped->get_subtype() == CPPDeclaration::ST_typedef) {
+      unwrapped = unwrapped->as_typedef_type()->_type;
+    }
+    if (unwrapped->get_subtype() == CPPDeclaration::ST_array) {
+      expr_type = unwrapped;
+    }
+  }
   while (expr_type->get_subtype() == CPPDeclaration::ST_array) {
     expr_type = CPPType::new_type(new CPPPointerType(expr_type->as_array_type()->_element_type));
   }
